@@ -41,7 +41,7 @@ def preload():
     import scipy.linalg  # noqa: F401
 
 
-def draw_operator(st, tier, like=None, prefer_k2=False, structured_k3=False):
+def draw_operator(st, tier, like=None, prefer_k2=False, structured_k3=False, upb=False):
     big = 12 if tier == "thorough" else 9
     d0, d1 = st.int_range(2, 4), st.int_range(2, 4)
     if st.draw(3) == 0:
@@ -59,6 +59,32 @@ def draw_operator(st, tier, like=None, prefer_k2=False, structured_k3=False):
         kind = "entangled_plus_identity"
     if kind == "ppt_edge" and like is not None:
         kind = "density"
+    if upb and like is None:
+        # projector onto the complement of an unextendible product basis (Tiles), embedded in 3x3 / 3x4 / 4x3 and
+        # rotated locally: its S(1) norm (0.97158...) lies strictly below its PPT value 1, so the bracket closes
+        # only through the symmetric-extension stage (effort >= 2) - on unequal local dimensions too
+        e = np.eye(3)
+        vs = [np.kron(e[0], (e[0] - e[1]) / np.sqrt(2)), np.kron(e[2], (e[1] - e[2]) / np.sqrt(2)), np.kron((e[0] - e[1]) / np.sqrt(2), e[2]),
+              np.kron((e[1] - e[2]) / np.sqrt(2), e[0]), np.kron(e.sum(0), e.sum(0)) / 3]
+        pj = np.eye(9) - sum(np.outer(v, v) for v in vs)
+        d0, d1 = st.weighted([((3, 4), 3), ((4, 3), 2), ((3, 3), 2)])
+        emb = np.kron(np.eye(d0, 3), np.eye(d1, 3))
+        x = emb @ pj @ emb.T
+        rng = st.nprng()
+        cplx = bool(st.draw(2))
+
+        def lu(d):
+            g = rng.standard_normal((d, d)) + (1j * rng.standard_normal((d, d)) if cplx else 0)
+            return np.linalg.qr(g)[0]
+
+        u = np.kron(lu(d0), lu(d1))
+        x = u @ x @ u.conj().T
+        x = (x + x.conj().T) / 2
+        scale = [1.0, 1.0, 2.5, 0.2][st.draw(4)]
+        x = x * scale
+        effort = st.weighted([(2, 4), (1, 1)])
+        meta = {"dims": [d0, d1], "kind": "upb_projector", "complex": cplx, "k": 1, "effort": effort, "dim_arg": "list", "target": None, "scale": scale}
+        return x, meta
     if kind == "ppt_edge":
         # operators whose maximum over PPT states sits on a bound-entangled edge state (Horodecki families)
         fam = st.weighted([("2x4", 3), ("4x2", 2), ("3x3", 2)])
@@ -338,7 +364,7 @@ def _scaled(v, c):
     return None if v is None else v * c
 
 
-def make_subject(cs, res, tier, stream, like=None, prefer_k2=False, structured_k3=False, hard=None):
+def make_subject(cs, res, tier, stream, like=None, prefer_k2=False, structured_k3=False, hard=None, upb=False):
     sub = Subject()
     if hard is not None:
         x_lib = hard_operator(hard[0])
@@ -346,7 +372,7 @@ def make_subject(cs, res, tier, stream, like=None, prefer_k2=False, structured_k
         sub.first_seed = hard[1]
         res.probe("hard_case")
     else:
-        x_lib, meta = draw_operator(cs.s(stream), tier, like=like, prefer_k2=prefer_k2, structured_k3=structured_k3)
+        x_lib, meta = draw_operator(cs.s(stream), tier, like=like, prefer_k2=prefer_k2, structured_k3=structured_k3, upb=upb)
     # x_lib is what the library is given (possibly np.matrix / integer-typed / strided); every own reference is
     # computed from a plain floating-point ndarray with the same entries
     x = np.asarray(x_lib)
@@ -368,9 +394,18 @@ def make_subject(cs, res, tier, stream, like=None, prefer_k2=False, structured_k
         res.probe("projection")
     if meta["kind"] == "ppt_edge":
         res.probe("ppt_edge_operator")
+    if meta["kind"] == "upb_projector":
+        res.probe("upb_projector")
     if meta["kind"] in ("diagonal", "block_diagonal"):
         res.probe("structured_operator")
     sub.dim_arg = {"list": list(dims), "scalar": dims[0], "omitted": None}[meta["dim_arg"]]
+    sub.k_arg = k
+    if hard is None and cs.s("config:" + stream).draw(4) == 0:
+        # the same integers as NumPy scalars (what `for d in np.arange(2, 5)` or `min(rho.shape) // 2` hand over)
+        sub.dim_arg = {"list": [np.int64(v) for v in dims], "scalar": np.int64(dims[0]), "omitted": None}[meta["dim_arg"]]
+        sub.k_arg = np.int64(k)
+        meta["numpy_scalar_arguments"] = True
+        res.probe("numpy_scalar_arguments")
     # reference values
     sub.rank = int(np.linalg.matrix_rank(x))
     sub.exact = None
@@ -432,7 +467,7 @@ def run(cs, tier, run_index):
     res = RunResult()
     sk = _lib()
     hard = HARD_CASES[(run_index // 32) % len(HARD_CASES)] if run_index % 32 == 11 else None
-    subs = [make_subject(cs, res, tier, "operator", prefer_k2=(run_index % 8 == 7), structured_k3=(run_index % 16 == 11), hard=hard)]
+    subs = [make_subject(cs, res, tier, "operator", prefer_k2=(run_index % 8 == 7), structured_k3=(run_index % 16 == 11), hard=hard, upb=(run_index % 32 == 19))]
     # sometimes a second operator of the same local dimensions and the same k lives in the same history
     # (whatever the routine keeps between calls under a key that ignores the operator meets another one)
     if cs.s("config").draw(3) == 2 or run_index % 8 == 7:
@@ -466,7 +501,7 @@ def run(cs, tier, run_index):
             res.fault("adversary_global_draws")
         before = global_state_digest()
         try:
-            out = sk(x, k, sub.dim_arg, sub.meta["target"], sub.meta["effort"])
+            out = sk(x, sub.k_arg, sub.dim_arg, sub.meta["target"], sub.meta["effort"])
             lo, up = float(np.real(out[0])), float(np.real(out[1]))
             o = ("ok", lo, up)
         except ValueError as e:
